@@ -58,4 +58,32 @@ def cycleWitness : Tree :=
 /-- `ex1` plus node 5 = ¬(S0 ∧ S1) as a volume: the smallest tree with a negated join -/
 def ex3 : Tree := (ins ex1 (.negated 4)).insertVolume 5
 
+/-- a tree built by fourteen `insert`s (production API): surfaces 0..5 = nodes 2..7,
+    8 = S0 ∨ S1, 9 = S0 ∨ S1 ∨ S4, 10 = S2 ∧ S3 ∧ S5 ∧ 9, 11 = S2 ∧ S3, 12 = S2 ∧ S3 ∧ 8,
+    13 = ¬8, 14 = ¬S5, 15 = S4 ∨ 14 -/
+def replaceOrderWitness : Tree :=
+  let w := ins (ins (ins (ins (ins (ins Tree.empty (.surface 0)) (.surface 1)) (.surface 2))
+    (.surface 3)) (.surface 4)) (.surface 5)
+  let w := ins w (.joined .or [2, 3])
+  let w := ins w (.joined .or [2, 3, 6])
+  let w := ins w (.joined .and [9, 4, 5, 7])
+  let w := ins w (.joined .and [4, 5])
+  let w := ins w (.joined .and [8, 4, 5])
+  let w := ins w (.negated 8)
+  let w := ins w (.negated 7)
+  ins w (.joined .or [6, 14])
+
+def ReplResult.tree : ReplResult → Tree
+  | .ok t _ => t
+  | .contradiction t => t
+  | .outOfFuel t => t
+
+def ReplResult.isOk : ReplResult → Bool
+  | .ok _ _ => true
+  | _ => false
+
+/-- `replace_and_simplify(tree, 13, False)` then `replace_and_simplify(tree, 15, False)` -/
+def replaceOrderStep1 : ReplResult := replaceAndSimplify replaceOrderWitness 13 false
+def replaceOrderStep2 : ReplResult := replaceAndSimplify replaceOrderStep1.tree 15 false
+
 end CelerVerif.Csg
